@@ -543,6 +543,10 @@ class Blockwise(ArrayExpr):
                 # Literal argument
                 new_args.extend([arr, ind])
             elif shuffle_ind in ind:
+                if not hasattr(arr, "_meta"):
+                    # Non-array args (e.g. ArraySliceDep) are per-block
+                    # payloads keyed by block position: they can't be taken from
+                    return None
                 # Find the axis in this input that corresponds to shuffle_ind
                 input_axis = ind.index(shuffle_ind)
                 shuffled = Shuffle(arr, shuffle_expr.indexer, input_axis, shuffle_expr.operand("name"))
